@@ -64,7 +64,8 @@ def _labels(rng, p):
         x = list(range(k))
         rng.shuffle(x)
         return x
-    n, nA, nO = p["n"], p["nA"], p["nO"]
+    # never-possible outcomes listed with explicit 0 (obs_ghost / state_ghost) need labels too
+    n, nA, nO = p["n"] + len(p.get("state_ghost", [])), p["nA"], p["nO"] + len(p.get("obs_ghost", []))
     ps, pa, po = perm(n), perm(nA), perm(nO)
     if scheme == "str":
         return {"scheme": scheme, "S": [["s", "s%d" % ps[i]] for i in range(n)],
@@ -74,13 +75,14 @@ def _labels(rng, p):
                 "A": [["t", [["s", "act"], ["i", pa[i]]]] for i in range(nA)],
                 "O": [["t", [["i", po[i]]]] for i in range(nO)]}
     if scheme == "falsy":       # "", (), False / 0.0 are legitimate labels
-        Sp = [["s", ""], ["s", "a"], ["s", "b"], ["s", "c"], ["s", "d"]]
+        Sp = [["s", ""], ["s", "a"], ["s", "b"], ["s", "c"], ["s", "d"], ["s", "e"]]
         Ap = [["t", []], ["t", [["i", 0]]], ["t", [["i", 1]]]]
-        Op = rng.choice([[["b", False], ["b", True], ["i", 2], ["i", 3]], [["f", 0.0], ["f", 0.5], ["i", 2], ["i", 3]]])
+        Op = rng.choice([[["b", False], ["b", True], ["i", 2], ["i", 3], ["s", ""], ["t", []]],
+                         [["f", 0.0], ["f", 0.5], ["i", 2], ["i", 3], ["s", ""], ["t", []]]])
     else:                       # unsortable: msdm falls back to set order
-        Sp = [["i", 0], ["s", "q"], ["i", 7], ["s", ""], ["i", 3]]
+        Sp = [["i", 0], ["s", "q"], ["i", 7], ["s", ""], ["i", 3], ["s", "zz"]]
         Ap = [["i", 0], ["s", "go"], ["t", []]]
-        Op = [["i", 0], ["s", "x"], ["t", [["i", 1]]], ["n"]]
+        Op = [["i", 0], ["s", "x"], ["t", [["i", 1]]], ["n"], ["i", 5], ["s", "y"]]
     return {"scheme": scheme, "S": [Sp[ps[i]] for i in range(n)], "A": [Ap[pa[i]] for i in range(nA)],
             "O": [Op[po[i]] for i in range(nO)]}
 
@@ -88,7 +90,7 @@ def _labels(rng, p):
 def gen_case(rng, tier):
     explicit = rng.random() < .3
     single = rng.random() < .04
-    p = gen_pomdp.gen_pomdp(rng, nmax=1 if single else 5, min_states=1 if single else 2, tiny=.4, near_twin=.6,
+    p = gen_pomdp.gen_pomdp(rng, nmax=1 if single else 5, min_states=1 if single else 2, tiny=.4, near_twin=.6, ghosts=.3,
                             big_rewards=.1, force_reachable=not (explicit and rng.random() < .8))
     beliefs = gen_pomdp.gen_beliefs(rng, p, n_grid=2, tiny=True)
     for be in beliefs:          # how the belief is handed to msdm
@@ -324,14 +326,20 @@ def _run(ctx, tier):
         if err:
             # which quantity raised?  (inside the quantifier nothing may raise: the predictive
             # distribution's own  assert isclose(sum, 1)  is part of the property)
-            where = "setup"
+            where = res.get("stage", "setup")
             for bo in res.get("beliefs", []):
                 for r in bo.get("actions", []) if isinstance(bo, dict) else []:
                     for k, v in r.items():
                         if has_error(v):
                             where = k
-            ctx.violation("C07:%s:raises:%s" % (where, err.split(":")[0]),
-                          {"case": case, "error": err, "impl": res}, found=not err.startswith("HarnessError"))
+            sig = "C07:%s:raises:%s" % (where, err.split(":")[0])
+            detail = {"case": case, "error": err, "impl": res}
+            if where == "observation_matrix" and case["pomdp"].get("obs_ghost"):
+                sig += ":explicit-zero-observation"
+                detail["clause"] = ("the dictionary and vectorised versions agree: the kernel lists an observation with explicit "
+                                    "probability 0 that is possible nowhere; the dictionary filter handles it, the observation "
+                                    "matrix (hence the vectorised filter and predictive distribution) cannot be built")
+            ctx.violation(sig, detail, found=not err.startswith("HarnessError"))
             continue
         if nonfinite(res):
             ctx.violation("C07:nonfinite-output", {"case": case, "impl": res}, found=True)
